@@ -18,14 +18,15 @@ open Frappy.SM Frappy.States
 /-- what an observer knows after a history -/
 structure Obs where
   cur : Option Sid := none            -- the state entered by the most recent transition (`none`: inactive)
-  prevCur : Option Sid := none        -- the state before the most recent transition
   fresh : Bool := true                -- no state function has been called since the most recent transition
   runCleanup : Option Cid := none     -- cleanup function of the current run, as long as it is neither used nor given up
   interrupted : Bool := false         -- the current run was interrupted and is not yet over: a cleanup sequence is in progress
   mustCleanup : Option Cid := none    -- the run was interrupted just now and has this cleanup: it is due as the very next event
   mustInterrupt : Bool := false       -- a state function raised / returned rubbish just now: the interruption is due
   inState : Bool := false             -- the function called last (not yet returned) is a state function
-  pendingStart : Option Req := none   -- the most recent request if it is a start that was not taken yet
+  pending : Option Req := none        -- the most recent request, as long as the machine has not taken it
+  taken : Option Req := none          -- a start was taken just now; its state is still to be entered
+  requesting : Bool := false          -- a start request of the module has begun and not yet posted its task
   lastPost : Option Req := none       -- the most recent request
   postedInCycle : Bool := false       -- a request arrived since the current cycle began
   lastEnter : Option (Option Sid) := none   -- the previous event (status reports aside) if it was a transition
@@ -44,6 +45,10 @@ def startOf : Option Req → Option Req
   | some (.start s cl kw ovr) => some (.start s cl kw ovr)
   | _ => none
 
+def isStartReq : Option Req → Bool
+  | some (.start ..) => true
+  | _ => false
+
 def isErrorRet : Ret → Bool
   | .bad => true
   | .raise => true
@@ -51,8 +56,10 @@ def isErrorRet : Ret → Bool
 
 /-- one more event has been seen -/
 def Obs.step (o : Obs) : Ev → Obs
+  | .reqStart => { o with requesting := true, lastEnter := none, lastInterrupt := false }
+  | .take => { o with pending := none, taken := startOf o.pending, lastEnter := none, lastInterrupt := false }
   | .post r =>
-    { o with pendingStart := startOf (some r), lastPost := some r, postedInCycle := true,
+    { o with pending := some r, requesting := false, lastPost := some r, postedInCycle := true,
              idle := match r with | .stop st => st | _ => o.idle,
              lastEnter := none, lastInterrupt := false }
   | .cycleBegin =>
@@ -71,11 +78,11 @@ def Obs.step (o : Obs) : Ev → Obs
   | .interrupt _ =>
     { o with mustInterrupt := false, mustCleanup := o.runCleanup, interrupted := true, lastEnter := none, lastInterrupt := true }
   | .enter ns =>
-    { o with prevCur := o.cur, cur := ns, fresh := true,
+    { o with cur := ns, fresh := true,
              interrupted := match ns with | none => false | some _ => o.interrupted,
              lastEnter := some ns, lastInterrupt := false }
   | .pickup _ cl snap =>
-    { o with runCleanup := cl, attrs := snap, pendingStart := none, lastEnter := none, lastInterrupt := false }
+    { o with runCleanup := cl, attrs := snap, taken := none, lastEnter := none, lastInterrupt := false }
   | .status _ => o
   | .raised => { o with lastEnter := none, lastInterrupt := false }
 
@@ -106,7 +113,7 @@ def okNoRaise (_ : Obs) : Ev → Bool
     is the state that was entered. -/
 def okInit (o : Obs) : Ev → Bool
   | .call s i => decide (o.cur = some s) && (i == o.fresh)
-  | .cycleEnd act _ => act == o.cur.isSome
+  | .cycleEnd act pend => (act == o.cur.isSome) && (pend == o.pending.isSome)
   | _ => true
 
 /-- *a run interrupted by stop, restart or error executes its cleanup exactly once*: an error of a state
@@ -123,11 +130,11 @@ def okCleanupOnce (o : Obs) (e : Ev) : Bool :=
    | _ => true)
 
 /-- *… and that cleanup sequence is never interrupted or restarted*: while a cleanup sequence is in progress
-    only an error interrupts (stop and start do not), and a newly requested state is entered only when the
-    machine has become inactive. -/
+    only an error interrupts (stop and start do not), and a request is taken only when the machine has become
+    inactive. -/
 def okCleanupNotInterrupted (o : Obs) : Ev → Bool
   | .interrupt k => !o.interrupted || k == .error
-  | .pickup _ _ _ => o.prevCur.isNone
+  | .take => o.cur.isNone
   | _ => true
 
 /-- *after stop the machine becomes inactive … as soon as a cleanup sequence already in progress has
@@ -142,28 +149,36 @@ def okStopInactive (o : Obs) : Ev → Bool
     else true
   | _ => true
 
-/-- *after start the most recently requested state is entered with exactly its attributes …*: whenever a
-    start is taken, it is the most recent request, its state is the one entered just before, the cleanup is
-    the requested one and the attributes afterwards are the previous ones updated with exactly the requested
-    ones; and at the end of a cycle during which no request arrived and at whose end no cleanup sequence is in
-    progress no start is waiting. -/
+/-- *after start the most recently requested state is entered with exactly its attributes …*: what the machine
+    takes is the most recent request (`Obs.step`); when it is a start, the next transition enters the requested
+    state, no state function is called before, and the start is completed (`pickup`) right after that transition
+    with the requested cleanup and with the previous attributes updated by exactly the requested ones; no taken
+    start is left over at the end of a cycle; and at the end of a cycle during which no request arrived and at
+    whose end no cleanup sequence is in progress, no request is waiting. -/
 def okLastStart (o : Obs) : Ev → Bool
+  | .take => o.pending.isSome
+  | .enter ns =>
+    (match o.taken with
+     | some (.start s _ _ _) => decide (ns = some s)
+     | _ => true)
+  | .call _ _ => o.taken.isNone
   | .pickup s cl snap =>
     decide (o.lastEnter = some (some s)) &&
-    (match o.pendingStart with
+    (match o.taken with
      | some (.start s' cl' kw _) => decide (s' = s) && decide (cl' = cl) && decide (snap = updAttrs o.attrs kw)
      | _ => false)
-  | .cycleEnd _ pend =>
-    if !o.postedInCycle && !o.interrupted then o.pendingStart.isNone && !pend else true
+  | .cycleEnd _ _ =>
+    o.taken.isNone && (if !o.postedInCycle && !o.interrupted then o.pending.isNone else true)
   | _ => true
 
-/-- the module is "engaged": a state function is active or a start is waiting to be taken -/
-def Obs.engaged (o : Obs) : Bool := o.cur.isSome || o.pendingStart.isSome
+/-- the module is "engaged": a state function is active, or a start is waiting to be taken or being entered -/
+def Obs.engaged (o : Obs) : Bool := o.cur.isSome || isStartReq o.pending || o.taken.isSome
 
 /-- *a module built on it reports a busy status from the start request until the machine has finished and
-    its final or stopped status afterwards* -/
+    its final or stopped status afterwards* (while a start request is being issued by another thread — begun,
+    task not yet posted — either is accepted) -/
 def okBusy (r : Rules) (o : Obs) : Ev → Bool
-  | .status st => if o.engaged then isBusy r st else decide (st = o.idle)
+  | .status st => if o.requesting then true else if o.engaged then isBusy r st else decide (st = o.idle)
   | _ => true
 
 /-! ## the clauses as properties of a history -/
